@@ -41,7 +41,7 @@ RULE = ('cases = (well-formed series of 1-12 dumps, 1-6 events, first event at d
         'distinct = hash of the encoded operation sequence plus alphabet. Float stream: the same generator over the '
         'alphabets float / wfloat = 1-3 of the numbers -inf, -1.5, 0.0, 2.5, inf plus 0-2 of five NaN objects (three '
         'Python floats, np.nan, one np.float64), plain or wrapped in ComparableArrayWrapper, comparison operands '
-        'plain or wrapped, numbers or NaN (present in the series or not), comparison operators drawn three times as '
+        'plain or wrapped, numbers or NaN (present in the series or not), comparison operators drawn about three times as '
         'often; value identity = same object for NaN, == for numbers; query answers are compared by class (number / '
         'NaN). The tags nan:* give the number of cases with NaN in the series and, per operator, with NaN in the '
         'series / as operand / both / neither. NaN stream: series containing NaN (same object / distinct objects / '
